@@ -130,6 +130,8 @@ type cfg struct {
 	sims  atomic.Int64 // real re-simulations (memo misses)
 	calls atomic.Int64 // real Process* calls
 	dupNo atomic.Int64 // duplicate deliveries that were not no-ops
+	reNoop atomic.Int64 // (state, delivered message) pairs whose re-delivery was run on the real machine and changed nothing
+	reEff  atomic.Int64 // ... and those that changed the machine or produced actions (then treated as a normal transition)
 }
 
 func newCfg(name string, powers []uint, byz, R int) *cfg { return newCfgH(name, powers, byz, []int{R}) }
@@ -315,6 +317,9 @@ type node struct {
 
 	sum  summary
 	hash [16]byte
+
+	redeliv []uint32  // mon.delivered(): what deviation R may deliver again to this validator
+	dupOnce sync.Once // ensureDups
 }
 
 type violation struct{ key, what string }
@@ -442,12 +447,16 @@ func (c *cfg) next(p *node, in uint32) *edge {
 			addViol("unknown-action", fmt.Sprintf("%T", a))
 		}
 	}
+	if child.hgt > p.hgt {
+		m.leaveHeight(int(p.hgt))
+	}
 	child.mon = m
 	var buf bytes.Buffer
 	dumpMachine(&buf, sm)
 	child.sum = c.readSummary(sm)
-	// Duplication: delivering the same message again must change nothing and output nothing.
-	// Verified on every memo miss, which is what justifies not enumerating duplicates as deviations.
+	// Immediate duplication: delivering the same message again straight away must change nothing and output nothing
+	// (verified on every memo miss). A LATER second delivery - after the receiver moved on to another step, round or
+	// height - is a deviation of the search (R, see ensureDups / search_test.go) and is followed like any other input.
 	if in>>20 == 1 {
 		acts2 := c.feed(sm, in)
 		var b2 bytes.Buffer
@@ -468,6 +477,7 @@ func (c *cfg) next(p *node, in uint32) *edge {
 		child = ex
 	} else {
 		child.id = c.nodes.Add(1)
+		child.redeliv = m.delivered(c, int(child.hgt)*hStride)
 		c.canon[s][child.hash] = child
 	}
 	c.cmu[s].Unlock()
@@ -483,6 +493,54 @@ func (c *cfg) next(p *node, in uint32) *edge {
 	}
 	p.mu.Unlock()
 	return e
+}
+
+// ensureDups resolves, for validator state p, the re-delivery of every message it has received so far (deviation R)
+// on the REAL machine: the representative input path is replayed once, then each recorded message is fed again. If
+// the machine returns no action and its reflective dump is unchanged the transition is a self-loop (that is exactly
+// what next() would compute: the monitor's record is a set); otherwise the machine is discarded and the transition
+// goes through next() like any other input (outputs, monitors, new state).
+func (c *cfg) ensureDups(p *node) {
+	p.dupOnce.Do(func() {
+		var sm machine
+		var base, b2 bytes.Buffer
+		for _, pk := range p.redeliv {
+			in := inMsg | pk
+			p.mu.Lock()
+			e := p.ch[in]
+			p.mu.Unlock()
+			if e != nil {
+				continue
+			}
+			if sm == nil {
+				c.sims.Add(1)
+				sm = c.fresh(int(p.slot))
+				for _, x := range p.path() {
+					c.feed(sm, x)
+				}
+				base.Reset()
+				dumpMachine(&base, sm)
+			}
+			acts := c.feed(sm, in)
+			b2.Reset()
+			dumpMachine(&b2, sm)
+			if len(acts) == 0 && bytes.Equal(b2.Bytes(), base.Bytes()) {
+				c.reNoop.Add(1)
+				p.mu.Lock()
+				if p.ch == nil {
+					p.ch = map[uint32]*edge{}
+				}
+				if p.ch[in] == nil {
+					p.ch[in] = &edge{to: p}
+				}
+				p.mu.Unlock()
+				continue
+			}
+			c.reEff.Add(1)
+			sm = nil
+			c.next(p, in)
+		}
+	})
 }
 
 func (c *cfg) checkHdr(sender starknet.Address, h types.Height, self, hgt int8) string {
